@@ -113,7 +113,7 @@ def to_numpy_bins_with_mask(bins: ArrayLike) -> Tuple[np.ndarray, np.ndarray]:
         raise ValueError("to_numpy_bins_with_mask: array with dim=1 or 2 expected")
     if not np.all(np.diff(edges_) > 0):
         raise ValueError("to_numpy_bins_with_mask: edges array not monotone.")
-    return np.asarray(edges_), np.asarray(mask_)
+    return np.asarray(edges_), np.asarray(mask_, dtype=int)
 
 
 def is_rising(bins: ArrayLike) -> bool:
